@@ -119,6 +119,21 @@ def check(ctx):
                 ctx.sample({"rule": n, "level": g, "args": {a: sorted(lv.const(a)) for a in args}, "date": str(d)})
     ctx.extra_cov["intervals"] = len(dates)
     ctx.floor("L", 3000)
+    # the assumption "g-level inputs are constant within g" rests on the interface's input check being exact
+    from .c20 import exact_comparisons
+
+    itf = repo.module("interface.py")
+    exact_comparisons(ctx, repo, itf, rid="L-in")
+    fd = itf.functions.get("_fail_if_group_variables_not_constant_within_groups")
+    if fd is None:
+        raise AnalysisError("_fail_if_group_variables_not_constant_within_groups vanished")
+    import ast as _ast
+
+    loops = [n for n in _ast.walk(fd) if isinstance(n, _ast.For)]
+    ok = any("SUPPORTED_GROUPINGS" in _ast.unparse(n) for n in _ast.walk(fd)) and any(isinstance(n, _ast.Raise) for n in _ast.walk(fd)) and len(loops) >= 2
+    ctx.ob("L-in", ok=ok, distinct="all-levels")
+    if not ok:
+        ctx.violation("L-in", "input-check-levels", itf.loc(fd), "the input check no longer covers every column of every grouping level present in the data")
 
 
 def _describe(dag, a):
